@@ -150,7 +150,7 @@ prop("C06",
       ("S6", S.S6, K01, {"roles_filter": ("READY", "DONE")}),
       ("W4", lambda ctx: __import__("rules_run").W4(ctx), K01, {}), ("S2", S.S2, K01, {}),
       ("R3", B.R3, K0, {"parts": ("structures", "counts")}), ("R4", B.R4, K0, {}), ("S1", S.S1, K01, {}),
-      ("T3", T.T3, K01, {"want_stream": True}), ("Q6", R.clone_frame, K0, {}), ("S4", S.S4, K01, {"liveness": True})],
+      ("T3", T.T3, K01, {"want_stream": True}), ("Q6", R.clone_frame, K0, {}), ("S4", S.S4, K01, {"liveness": True}), ("T5", T.T5, K01, {})],
      K01,
      "Decides W4 = L1 (limit forwarded unchanged, so None gates nothing), W1 (the only edge-adding call on the user's graph reachable from build() is update_edge with the constant Edge::Data, "
      "no other node/edge-set mutator), W2 (the comparison pairs feeding its guard contain no read x read pair and no same-function pair; "
@@ -189,7 +189,7 @@ prop("C12",
 
 prop("C13",
      [("K", B.C13_rules, K04, {}), ("R3", B.R3, K04, {"parts": ("ranks",)}), ("E", B.C16_rules, K04, {}), ("ID", B.ID_rules, K04, {}),
-      ("K7", lambda ctx: B.rank_ord_rule(ctx, "K7"), K04, {})],
+      ("K7", lambda ctx: B.rank_ord_rule(ctx, "K7"), K04, {}), ("P1", B.P1, K04, {})],
      K04,
      "Decides K1 (ranks start as Rank(0) x node_count), K2 (the work queue is seeded with exactly the parent-less nodes), K3 (every store to "
      "ranks[child] is ranks[parent]+1 - constant 1 through Rank: Add<usize>, whose body adds the fields - merged by max or guarded by candidate > existing), "
@@ -246,7 +246,7 @@ prop("C08",
      "THE NUMERIC BOUNDS THEMSELVES (<= 1 / <= n more, pending-signal cases, PollNextN(0)): they are the state machine of interruptible::InterruptibleStream in another crate; fn_graph only wires it")
 
 prop("C09",
-     [("O", R.O_rules, K01, {}), ("O3b", R.O3b, K01, {}), ("S5", S.S5, K01, {}), ("I2", R.I2_rule, ("K1",), {}), ("O5", R.O5, K01, {}), ("O6", R.O6, K01, {}), ("S6b", S.S6b_bitsets, K01, {})],
+     [("O", R.O_rules, K01, {}), ("O3b", R.O3b, K01, {}), ("S5", S.S5, K01, {}), ("I2", R.I2_rule, ("K1",), {}), ("O5", R.O5, K01, {}), ("O6", R.O6, K01, {}), ("S6b", S.S6b_bitsets, K01, {}), ("F", R.F_rules, K01, {})],
      K01,
      "Decides O1 (the only pushes to fn_ids_processed happen in the ready-stream adaptors, with the id dequeued from READY, once per dequeue, not in per-item bodies), "
      "O2 (StreamOutcome::new stores processed/state unchanged and computes not-processed as the node-order filter !processed.contains(id) over all nodes of the walked structure; "
